@@ -197,6 +197,59 @@ Proof.
   subst m. exists (no b), b. repeat split; auto.
 Qed.
 
+(** pre-checks and blocks produced by the node itself keep the invariant *)
+Theorem add_block_gen_inv own pre n b :
+  Inv n -> U b -> (f27 = true \/ no b <> 0) ->
+  Inv (fst (add_block_gen apply true f27 orphan_cap own pre n b)).
+Proof.
+  intros I Ub Hn0. unfold add_block_gen.
+  destruct (mem (hash_field b) (bad n)); [exact I|].
+  destruct (get_block (dur n) (hash_field b)) eqn:Eg; [exact I|].
+  assert (Hrest : Inv (fst (if own && negb (prev b =? hash_field (best n)) then (n, RErr)
+                            else if own then
+                              match add_own_block_internal apply true f27 n b with
+                              | (n1, RErr, true) => (set_bad n1 (bad_add (hash_field b) (bad n1)), RErr)
+                              | (n1, r, _) => (n1, r)
+                              end
+                            else add_block apply true f27 orphan_cap n b))).
+  { destruct (own && negb (prev b =? hash_field (best n))); [exact I|].
+    destruct own; [|apply add_block_inv; auto].
+    assert (Hint : Inv (fst (fst (add_own_block_internal apply true f27 n b)))).
+    { unfold add_own_block_internal.
+      destruct (is_main_chain f27 n b) as [main|] eqn:Em; [|exact I].
+      destruct main.
+      - destruct (is_main_chain_true n b I Em Hn0) as (Hp & Hn).
+        destruct (connect_main apply n b) as [n1|] eqn:Ec; [|exact I].
+        destruct (connect_main_inv apply spent apply_fresh apply_spent U U_inj g _ _ _ I Ub Hp Hn Ec) as (I1 & _).
+        simpl. exact I1.
+      - destruct (store_side_inv apply spent U U_inj g n b I Ub) as (I1 & B1 & _ & _ & _ & _ & _ & GBb & _).
+        simpl negb. rewrite andb_true_l.
+        destruct (no (best (store_side n b)) <? no b) eqn:El; [|exact I1].
+        apply N.ltb_lt in El.
+        destruct (reorg apply true (store_side n b) b) as [n2 e] eqn:R.
+        destruct (reorg_inv _ _ _ _ I1 Ub GBb El R) as (I2 & _).
+        destruct e; exact I2. }
+    destruct (add_own_block_internal apply true f27 n b) as [[n1 r] c]. simpl in Hint.
+    destruct r; simpl; auto. destruct c; simpl; auto. apply inv_set_bad. auto. }
+  destruct pre; auto.
+  destruct (own && negb (prev b =? hash_field (best n))); [exact I|]. apply inv_set_bad. exact I.
+Qed.
+
+(** a rejection for a transient reason (future timestamp; a produced block that became stale)
+    leaves the node, in particular the negative cache, untouched: the block is accepted when it is
+    delivered again later *)
+Theorem transient_rejection_not_cached own n b :
+  fst (add_block_gen apply true f27 orphan_cap own PreTimestamp n b) = n /\
+  (prev b <> hash_field (best n) -> forall pre, fst (add_block_gen apply true f27 orphan_cap true pre n b) = n).
+Proof.
+  split.
+  - unfold add_block_gen. destruct (mem (hash_field b) (bad n)); auto. destruct (get_block (dur n) (hash_field b)); auto.
+  - intros Hne pre. unfold add_block_gen. destruct (mem (hash_field b) (bad n)); auto.
+    destruct (get_block (dur n) (hash_field b)); auto.
+    assert (E : prev b =? hash_field (best n) = false) by (apply N.eqb_neq; exact Hne).
+    rewrite E. simpl. destruct pre; reflexivity.
+Qed.
+
 (** findAncestor returns a block of the main chain that was listed, the first such in list order;
     it fails only if no listed hash names a main-chain block. *)
 Theorem find_ancestor_sound n hs b :
